@@ -11,9 +11,11 @@ PROP = {'assumptions': ['Redis PTTL replies are canonical decimal i64 (-2 missin
 CHECK = {'design_ref': '§6 C19',
  'note': 'Trusted: Lean kernel; btoi grammar transliteration (checked differentially); Redis PTTL/RESTORE '
          'semantics as stated; path models (produce_entries/get_data_entry reply matching) are hand-written.',
- 'technique': 'Lean 4 theorem over all i64 PTTL values + differential correspondence (real fn vs model)',
+ 'technique': 'Lean 4 theorems over all i64 PTTL values on both transfer-path models + differential correspondence (real function, real UMSYNC path, real pull path vs model)',
  'text': 'Proved for all PTTL replies n in [0, i64::MAX], -1 and -2 and every payload, on both transfer-path '
          'models (scan/UMSYNC and pull): RESTORE ttl t satisfies 1 <= t <= max(n,1); persistent stays '
          'persistent; missing keys are not restored. The model is tied to the code by generated constants '
-         'and by running the real pttl_to_restore_expire_time against the Lean model on '
-         'boundary/structured/random byte strings every run.'}
+         'and by running, every run, three real code paths against the Lean model on boundary/structured/random replies: '
+         'pttl_to_restore_expire_time itself, the UMSYNC push path (ScanMigrationTask::handle_sync_task -> produce_entries -> '
+         'forward_entries with a scripted Redis stand-in recording the RESTORE that reaches the destination) and the pull path '
+         '(get_data_entry + gen_restore_resp through a cfg hook).'}
